@@ -361,6 +361,7 @@ def tide_case_strategy(tier, kinds=('single',), array_fraction=3, finding_weight
             'e_none': st.booleans(),      # scalar e == 0 is passed as eccentricity=None (the documented default)
             'bodies': st.tuples(body, body).map(list),
             'pts': array_pts if as_array else scalar_pts,
+            **({'history': st.lists(point_strategy(), min_size=1, max_size=2)} if as_array else {}),
             **({'routes': ROUTES} if routes else {}),
         })
     return weighted([build(False), build(True)], [array_fraction, 1])
@@ -397,7 +398,9 @@ def case_in_domain(case):
                 return False
             if not isinstance(b['sync'], bool) or not isinstance(b['use_obl'], bool):
                 return False
-        for p in case['pts']:
+        if 'history' in case and not (1 <= len(case['history']) <= 2):
+            return False
+        for p in list(case['pts']) + list(case.get('history') or []):
             if not (0.0 <= p['e'] <= 0.5 and 0.6 <= p['log_a_over_R'] <= 3.0 and _away_from_zero(E_MIN)(p['e'])):
                 return False
             for i in range(2):
@@ -508,6 +511,7 @@ class Setup:
             b.fixed_dt = None if b.spec['dt_factor'] is None else \
                 (10.0 ** b.spec['dt_factor']) / (b.fixed_q * float(self.n[0]))
             b.host_mass = (self.bodies[1 - b.idx].mass if dual else self.host_mass)
+            b._n_for_dt = self.n
             b.table_on = dual and any(x.obl is not None for x in self.bodies)
 
     def arr(self, v, name, j=None):
@@ -629,6 +633,100 @@ def variant_body(su, case):
         v.shear = v.shear[0] * np.ones(su.k)
     v.fixed_dt = None if v.spec['dt_factor'] is None else (10.0 ** v.spec['dt_factor']) / (v.fixed_q * float(su.n[0]))
     return v
+
+
+# ---- call history: the same ndarray objects re-used after being overwritten in place -----------------------------------
+
+def history_cases(case):
+    """Two follow-up states of an ARRAY case with the same configuration and array length: (1) the points rolled by one with
+    the first replaced by a generated `history` point, (2) rolled again, every eccentricity exactly 0."""
+    pts = [dict(p) for p in case['pts']]
+    hist = list(case.get('history') or [])
+    if not hist:
+        p0 = pts[0]
+        hist = [dict(p0, e=0.5 * p0['e'] if p0['e'] >= 2.0 * E_MIN else 0.0, log_a_over_R=min(3.0, p0['log_a_over_R'] + 0.1))]
+    s1 = [dict(hist[0])] + pts[:-1]
+    s2 = [dict(hist[1] if len(hist) > 1 else s1[-1])] + s1[:-1]
+    s2 = [dict(p, e=0.0) for p in s2]
+    return [dict(case, pts=s1, e_none=False), dict(case, pts=s2, e_none=False)]
+
+
+def _overwrite(live, new):
+    """Give `live` (a keyword-argument value) the values of `new`, re-using every ndarray object of `live` (overwritten in
+    place); returns (value to pass, True) or (None, False) when the two do not have the same structure."""
+    if isinstance(live, np.ndarray):
+        if not isinstance(new, np.ndarray) or new.shape != live.shape:
+            return None, False
+        live[...] = new
+        return live, True
+    if isinstance(live, (tuple, list)):
+        if not isinstance(new, (tuple, list)) or len(new) != len(live):
+            return None, False
+        out = []
+        for x, y in zip(live, new):
+            v, ok = _overwrite(x, y)
+            if not ok:
+                return None, False
+            out.append(v)
+        return type(live)(out) if not isinstance(live, tuple) else tuple(out), True
+    if isinstance(live, dict):
+        if not isinstance(new, dict) or set(new) != set(live):
+            return None, False
+        out = {}
+        for kk in live:
+            v, ok = _overwrite(live[kk], new[kk])
+            if not ok:
+                return None, False
+            out[kk] = v
+        return out, True
+    if isinstance(new, np.ndarray):
+        return None, False
+    return new, True
+
+
+def history_check(c, case, dual, kw_live, make_call, fn_name, is_known=None, extra=None):
+    """Call-history clause.  `kw_live` are the keyword arguments of a call that has just been made.  For each follow-up state
+    of history_cases(): every ndarray object inside kw_live is overwritten IN PLACE with the new values (scalars replaced)
+    and the same entry point is called again with the very same array objects - consecutively for all states, nothing else
+    evaluated in between; afterwards each state is evaluated once more with fresh arrays and both results must agree bit for
+    bit (every numeric entry of the result, nested dicts included).  `make_call(su, kw)` -> result (kw None: build fresh
+    keyword arguments and return (kw, result)); `extra(su_step, result, step)` adds clause checks on a history result."""
+    from vlib.result import RepoRaised
+    if not case['as_array']:
+        return
+    steps = []
+    kw = kw_live
+    try:
+        for step_case in history_cases(case):
+            su_s = Setup(step_case, dual=dual)
+            kw_new = make_call(su_s, None, build_only=True)
+            if set(kw_new) != set(kw):
+                c.label('history:skipped')
+                return
+            nxt = {}
+            for key in kw:
+                v, ok = _overwrite(kw[key], kw_new[key])
+                if not ok:
+                    c.label('history:skipped')
+                    return
+                nxt[key] = v
+            kw = nxt
+            res = make_call(su_s, kw)
+            steps.append((su_s, snapshot(res)))
+        for i, (su_s, res_live) in enumerate(steps):
+            _, res_fresh = make_call(su_s, None)
+            diff = differences(res_live, res_fresh, 'result')
+            c.check(not diff, {'clause': 'history', 'fn': fn_name},
+                    '%s, call %d of a sequence re-using the same ndarray objects (overwritten in place with the next state, '
+                    'e=%r) differs from a call with fresh arrays of the same values at: %s' % (fn_name, i + 2, su_s.e.tolist(), diff[:6]))
+            if extra is not None:
+                extra(su_s, res_live, i)
+        c.label('history:checked')
+    except RepoRaised as ex:
+        if is_known is not None and is_known(ex):
+            c.label('history:known_exception')
+            return
+        raise
 
 
 def has_routes(su):
